@@ -19,23 +19,20 @@
    their scalar columns name_k, unwelded when the mesh has UVs and at least one face).  [ply_encodings_agree] is
    the corollary for the three files.  Two explicit hypotheses remain, both decidable:
    * [no_st m] — the mesh is not a point cloud carrying TexCoord.  Such a cloud gets per-vertex properties s, t
-     (fix ad4b3e5) whose reader ply.ReadMesh places BEFORE the splat groups, so the reader's attribute list is a
-     permutation of the writer-order list [expected] uses.  Proved for that class: the file in closed form
-     ([ply_roundtrip_points_st_partial]).  Missing lemma: `build_readers` on a property list with s/t among the
-     unclaimed scalars is a permutation p of `layout`, and `read_bin_row/read_ascii_row/update_mesh` commute with p
-     (mesh equal up to attribute order).  Checked on every generated case by Check/C04.v ([mesh_eqb] ignores order).
+     (fix ad4b3e5) whose reader ply.ReadMesh places BEFORE the splat groups, so the reader's list is in its own order.
+     [ply_roundtrip_points_st] gives the whole-file round trip for that class through readers placed anywhere in the
+     list ([readers_placed]: a decidable statement about the concrete mesh, computed per case by Check/C04.v), with the
+     attributes in the reader's order (the same name -> data map as [expected], in another order).  The one lemma not
+     proved in general: `build_readers (P ++ T1 ++ [s;t] ++ T2) = Ok (breaders PL)` for the insertion placement PL.
    * ASCII only: the configuration writes at least one vertex property when n >= 1 (otherwise known finding
      ply:ascii-vertex-without-properties: [ascii_ok] cannot hold, the encodings really disagree).
-   * User-named attributes: [wf_mesh] requires their PLY property names (name, or name_k for vectors) to be pairwise
-     distinct and OUTSIDE the reader's reserved component names ([reserved_names]: x y z px .. s t red .. rot_3);
-     that is the hypothesis of [ply_readers_default_user].  A reserved name is claimed by the reader exactly when its
-     whole group is present in the file with one type (PlyRead.accepted; colour groups also without alpha) — then the
-     values come back as that group's attribute — and otherwise stays a scalar attribute under its own name ("t"
-     without "s", "alpha" without the colours, "px", "scale_0", "X").  Those meshes are inside
-     [ply_roundtrip_any_table] (its [readers_ok] side condition is decidable and computed for any concrete mesh) but not
-     inside the [wf_mesh] theorems; [ply_lone_member_example] evaluates one, and Check/C04.v generates the class
-     (lone members, complete groups spelled as user scalars, suffixed vectors such as rot x 4, case variants) and
-     judges it with an oracle that locates every property from the written file's own header.
+   * User-named attributes: [wf_mesh] requires their PLY property names (name, or name_k for vectors) to be distinct
+     from each other and from the table's own names, and to COMPLETE no reader group ([no_group_completedb]: for every
+     group either no user name is a member or some member is in the file under no name; colour groups also for their
+     first three members).  Names that are members of a group but complete none ("t" without "s", "alpha" without the
+     colours, "px", "scale_0" — the class of seeded change C04-G) are INSIDE the theorems: [ply_readers_default_open]
+     shows they get their own scalar reader.  When user names do complete a group the values come back as that group's
+     attribute (PlyRead.accepted); that direction is evaluated ([ply_lone_member_example], Check/C04.v), not proved.
    Custom writer tables: the same statement holds for ANY table under decidable side conditions
    ([ply_roundtrip_any_table]: the reader builds the laid-out readers, attribute keys distinct, values storable);
    the 8-bit scalar case is refuted ([ascii_uchar_scalar_refuted], known finding ply:ascii-uchar-scalar-raw). *)
@@ -43,6 +40,25 @@ From PF Require Import Base.Bytes Formats.PlyRead Formats.PlyWrite Formats.PlyWr
 From Coq Require Import String.
 Open Scope list_scope.
 Open Scope N_scope.
+
+(* ================= THE PROPERTY ================= *)
+(* Writing any well-formed point cloud or triangle mesh with ply.Write's table and reading it back yields [expected o m]
+   — same topology and indices (unwelded when the mesh has UVs and a face), every attribute at the precision of its
+   stored type —; the ASCII, little-endian and big-endian files decode to the same mesh; and the header of each file
+   parses to the format, element counts (AttributeLength, PrimitiveCount) and property lists that determine the size
+   of the body that follows ([described]).  Explicit exclusions: a configuration that writes no vertex property for
+   n >= 1 vertices (known finding ply:ascii-vertex-without-properties: the ASCII file cannot be read), point clouds with
+   per-vertex s/t ([no_st], see [ply_roundtrip_points_st]); for custom tables ([ply_roundtrip_any_table]) additionally
+   the 8-bit scalar ([ascii_uchar_scalar_refuted], known finding ply:ascii-uchar-scalar-raw). *)
+Theorem ply_write_read_property : forall o m, o_writers o = default_writers -> wf_mesh m = true -> no_st m ->
+  (w_n m = 0%nat \/ vertex_props (rview o m) <> []) ->
+  let gs := map (group_of m) (effective_writers o m) in
+  exists fa fl fb r,
+    write o ASCII m = Ok fa /\ write o BinLE m = Ok fl /\ write o BinBE m = Ok fb /\
+    expected o m = Ok r /\ read_mesh fa = Ok r /\ read_mesh fl = Ok r /\ read_mesh fb = Ok r /\
+    described ASCII gs m fa /\ described BinLE gs m fl /\ described BinBE gs m fb.
+Proof. exact ply_property_default. Qed.
+Print Assumptions ply_write_read_property.
 
 (* ---- header: what Header.Write emits parses back to the same format, elements, counts and property list ---- *)
 Theorem ply_header_roundtrip : forall f gs m,
@@ -319,13 +335,47 @@ Theorem ply_expected_is_result : forall o m bin, let gs := rview o m in
 Proof. exact expected_result. Qed.
 Print Assumptions ply_expected_is_result.
 
-(* what is proved for point clouds with per-vertex s/t (outside [no_st]): the written file, in closed form *)
-Theorem ply_roundtrip_points_st_partial : forall o f m, o_writers o = default_writers -> wf_mesh m = true ->
+(* point clouds with per-vertex s/t (outside [no_st]): the whole file, read through readers placed in the reader's own
+   order; [PL] lists the groups with the cursor each reader was built at *)
+Theorem ply_roundtrip_points_st : forall o f m PL, o_writers o = default_writers -> wf_mesh m = true -> w_topo m = TPoint ->
+  (0 < w_n m)%nat -> readers_placed (is_bin f) (rview o m) PL -> keys_ok [] (map fst PL) = true ->
+  (f = ASCII -> forallb ascii_ok (rview o m) = true /\ vertex_props (rview o m) <> []) ->
+  exists file, write o f m = Ok file /\
+    read_mesh file = Ok {| m_topo := TPoint; m_idx := iota (w_n m); m_attrs := map gattr (map fst PL) |}.
+Proof. exact ply_points_placed. Qed.
+Print Assumptions ply_roundtrip_points_st.
+
+(* the written file in closed form, for ply.Write's table on every well-formed mesh *)
+Theorem ply_write_closed_form : forall o f m, o_writers o = default_writers -> wf_mesh m = true ->
   (f = ASCII -> w_n m = 0%nat \/ effective_writers o m <> []) ->
   write o f m = Ok {| pf_header := header_lines f (header_elems (map (group_of m) (effective_writers o m)) m);
                       pf_body := closed_body f (map (group_of m) (effective_writers o m)) m |}.
 Proof. exact write_closed_default. Qed.
-Print Assumptions ply_roundtrip_points_st_partial.
+Print Assumptions ply_write_closed_form.
+
+(* user names that are members of reader groups but complete none get their own scalar readers *)
+Theorem ply_readers_default_open : forall bin m (sel : pw -> bool) tail,
+  let pregs := map (group_of m) (filter sel default_writers) in
+  Forall scalar_group tail -> NoDup (map rg_attr tail) ->
+  (forall g, In g tail -> ~ In (rg_attr g) (pnames (vertex_props pregs))) ->
+  Forall (fun g => group_open g (vertex_props pregs) (vertex_props tail)) default_groups ->
+  readers_ok bin (pregs ++ tail).
+Proof. exact readers_ok_default_open. Qed.
+Print Assumptions ply_readers_default_open.
+
+(* the header describes the body, for ANY writer table: what [write] returns parses to the format, the element counts
+   and the property lists, and these give the body size (binary: vcount * rowsize + fcount * facesize bytes; ASCII:
+   vcount + fcount lines with one token per property / 4 or 11 tokens per face) *)
+Theorem ply_header_describes_body_file : forall o f m,
+  let gs := map (group_of m) (effective_writers o m) in
+  Forall (group_good (w_n m)) gs -> (f = ASCII -> w_n m = 0%nat \/ gs <> []) ->
+  (w_topo m = TTriangle -> (List.length (w_idx m) mod 3 = 0)%nat) -> (has_tex m = true -> tex_ok m) ->
+  exists file, write o f m = Ok file /\ described f gs m file.
+Proof.
+  intros o f m gs Hg Hne Hm Hx. destruct (write_header_describes_body o f m Hg Hne Hm Hx) as (file & W & D).
+  exists file. split; [exact W|exact D].
+Qed.
+Print Assumptions ply_header_describes_body_file.
 
 (* ---- the known finding, as a statement about the reader model: an 8-bit scalar comes back raw from ASCII ---- *)
 Theorem ascii_uchar_scalar_refuted :
